@@ -62,6 +62,16 @@ def disc_root(schema, c):
     return None
 
 
+def under_tagger(schema, c):
+    """some ancestor's class-level discriminator has a variant_tagger_fn (every descendant is registered by name)"""
+    c = schema["classes"][c]["parent"]
+    while c is not None:
+        if schema["classes"][c].get("tagger"):
+            return True
+        c = schema["classes"][c]["parent"]
+    return False
+
+
 def has_tag(schema, c):
     """the class body binds the discriminator attribute `kind` itself (variant.__dict__["kind"])"""
     return bool(schema["classes"][c].get("tag"))
@@ -75,6 +85,18 @@ def subclasses_walk(schema, p):
             out.append(c)
             out += subclasses_walk(schema, c)
     return out
+
+
+def discu_variants(schema, cs, wf, sb, sp):
+    """the classes Annotated[Union[cs], Discriminator(...)] can produce"""
+    vs = []
+    if sb:
+        for c in cs:
+            vs += subclasses_walk(schema, c)
+    if sp:
+        vs += list(cs)
+    vs = [v for v in vs if not schema["classes"][v].get("disc")]
+    return [v for v in vs if has_tag(schema, v)] if wf else vs
 
 
 def disc_variants(schema, p, wf, sup, tagger=False):
@@ -123,13 +145,13 @@ def ty_classes(t):
         return ty_classes(t[2])
     if t[0] == "opt":
         return ty_classes(t[1])
-    if t[0] == "union":
+    if t[0] in ("union", "discu"):
         return list(t[1])
     return []
 
 
 def ty_has_union(t):
-    if t[0] == "union" or (t[0] == "disc" and not t[2]):
+    if t[0] in ("union", "discu") or (t[0] == "disc" and not t[2]):
         return True      # speculative constructs: Union, discriminator without a field
     if t[0] == "list":
         return ty_has_union(t[2])
@@ -165,6 +187,10 @@ def py_ty(t, cur=None, sp=None, self_c=None):
     if t[0] == "disc":
         args = (['field="kind"'] if t[2] else []) + ["include_subtypes=True"] + (["include_supertypes=True"] if t[3] else [])
         return f'Annotated[K{t[1]}, Discriminator({", ".join(args)})]'
+    if t[0] == "discu":
+        args = (['field="kind"'] if t[2] else []) + (["include_subtypes=True"] if t[3] else []) \
+            + (["include_supertypes=True"] if t[4] else [])
+        return "Annotated[Union[" + ", ".join(f"K{c}" for c in t[1]) + f'], Discriminator({", ".join(args)})]'
     if t[0] == "list":
         inner = py_ty(t[2], cur, sp, self_c)
         if sp.get("builtin") and not plain:
@@ -462,8 +488,7 @@ def wire_of(schema, v, drop_default_none=False):
         if x[0] == "none" and drop_default_none and name_default(schema, n):
             continue
         d[f"f{n}"] = wire_of(schema, x, drop_default_none)
-    r = disc_root(schema, c)
-    if has_tag(schema, c) or (r is not None and schema["classes"][r].get("tagger")):
+    if has_tag(schema, c) or under_tagger(schema, c):
         d["kind"] = f"K{c}"
     return d
 
@@ -488,7 +513,7 @@ def _union_orders_ann(a, out):
 
 
 def _union_orders_ty(t, out):
-    if t[0] == "union":
+    if t[0] in ("union", "discu"):
         out.append([f"K{c}" for c in t[1]])
     elif t[0] == "list":
         _union_orders_ty(t[2], out)
@@ -726,7 +751,7 @@ def subtree_uids(v):
 
 def subclass_positions(schema, t, v, out):
     """instances whose class is a strict subclass of the dataclass the position is declared with"""
-    if t[0] == "union":
+    if t[0] in ("union", "discu"):
         if v[0] == "inst":
             if v[1] not in t[1]:
                 out.append(v)
@@ -750,7 +775,12 @@ def declared_positions(schema, t, v, out):
         out.append((t[1], v))
         for n, x in v[4]:
             declared_positions(schema, name_ty(schema, n), x, out)
-    elif t[0] == "union" and v[0] == "inst":
+    elif t[0] in ("union", "discu") and v[0] == "inst":
+        if v[1] not in t[1]:      # an instance of a subclass of a member: the member it descends from is the declared class
+            for m in t[1]:
+                if v[1] in descendants(schema, m):
+                    out.append((m, v))
+                    break
         for n, x in v[4]:
             declared_positions(schema, name_ty(schema, n), x, out)
     elif t[0] == "list" and v[0] == "list":
@@ -771,7 +801,7 @@ def is_format_method(schema, entry):
 
 def union_positions(schema, t, v, out, via_codec):
     """(members, value) for every union position of the value"""
-    if t[0] == "union":
+    if t[0] in ("union", "discu"):
         out.append((t[1], v))
         if v[0] == "inst":
             union_positions(schema, ["dc", v[1]], v, out, via_codec)
@@ -954,6 +984,8 @@ def coq_ty(t):
         return f"(TOpt {coq_ty(t[1])})"
     if t[0] == "disc":
         return f"(TDisc {t[1]} {coq_bool(t[2])} {coq_bool(t[3])})"
+    if t[0] == "discu":
+        return "(TDiscU [" + "; ".join(str(c) for c in t[1]) + f"] {coq_bool(t[2])} {coq_bool(t[3])} {coq_bool(t[4])})"
     return "(TUnion [" + "; ".join(str(c) for c in t[1]) + "])"
 
 
